@@ -133,10 +133,40 @@ class World:
         self.root = root
         self.epoch = Module(root, EPOCH_PY)
         self.warmup = Module(root, WARMUP_PY)
+        for m in (self.epoch, self.warmup):
+            self._toplevel(m)
+        for c in ("EpochType", "EpochManager", "EpochState"):
+            node = self.epoch.cls(c)
+            if node.decorator_list and c != "EpochState" or node.keywords:
+                self.epoch.fail(node, f"decorated class / metaclass: {c}")
+        if self.epoch.cls("EpochManager").bases:
+            self.epoch.fail(self.epoch.cls("EpochManager"), "EpochManager has base classes")
         self.enum = self._enum()
         self.fields = self._fields()
         self.translated = {}      # gallina name -> (text, info)
         self.order = []
+
+    def _toplevel(self, m):
+        """module level: docstring, imports, classes, functions and partial(...) aliases only - anything
+        else (monkey patching, rebinding, conditional definitions) could change what the names mean"""
+        seen = set()
+        for st in m.tree.body:
+            if isinstance(st, (ast.Import, ast.ImportFrom)):
+                continue
+            if isinstance(st, ast.Expr) and isinstance(st.value, ast.Constant) and isinstance(st.value.value, str):
+                continue
+            if isinstance(st, (ast.ClassDef, ast.FunctionDef)):
+                if st.name in seen:
+                    m.fail(st, f"second definition of {st.name}")
+                seen.add(st.name)
+                continue
+            if (isinstance(st, ast.Assign) and len(st.targets) == 1 and isinstance(st.targets[0], ast.Name)
+                    and isinstance(st.value, ast.Call) and ast.unparse(st.value.func) == "partial"):
+                if st.targets[0].id in seen:
+                    m.fail(st, f"second definition of {st.targets[0].id}")
+                seen.add(st.targets[0].id)
+                continue
+            m.fail(st, "module level statement " + type(st).__name__)
 
     def _enum(self):
         m = self.epoch
@@ -636,10 +666,6 @@ class Fn:
         self.loop_ok(s.body)
         # state: the places the body rebinds, ordered by first appearance in test, then body
         bound = self.assigned(s.body)
-        order = []
-        for n in ast.walk(s.test):
-            if isinstance(n, ast.Name) and ("v", n.id) in bound and ("v", n.id) not in order:
-                order.append(("v", n.id))
         # ast.walk is breadth first; use source position for a stable, rename-independent order
         names_in_test = sorted((n for n in ast.walk(s.test) if isinstance(n, ast.Name)), key=lambda n: (n.lineno, n.col_offset))
         order = []
